@@ -121,8 +121,13 @@ struct PkRun {
       // There only the content is demanded (the shorter chunk must be a prefix or a suffix of the other); everywhere else exact equality.
       int resync_at = -1;
       for (size_t i = 0; i < dl.size(); i++) { const Deliv &d = dl[i]; if (d.orig > last_dist && d.intact && d.granule != -1) { resync_at = d.orig; break; } }
-      bool broke = false;
-      { int64_t prevno = -1; bool any = false; for (size_t i = 0; i < dl.size(); i++) { if (dl[i].restart_before || dl[i].fresh_before) { broke = true; any = false; } if (!D[i].blocked) continue; if (any && dl[i].packetno != prevno + 1 && dl[i].orig > 0) broke = true; prevno = dl[i].packetno; any = true; if (dl[i].orig >= 0 && dl[i].orig == resync_at) break; } }
+      // `suspect`: the count running at the re-synchronisation point includes a block that is not the stream's own (a damaged, foreign or
+      // garbage packet the decoder accepted: its block size, which may be larger than the original's, went into the count - also when it is
+      // the very block the count restarted at, whose size is the "previous block" of the next one)
+      bool broke = false, suspect = false;
+      { int64_t prevno = -1; bool any = false; for (size_t i = 0; i < dl.size(); i++) { bool brk = false; if (dl[i].restart_before || dl[i].fresh_before) { broke = true; brk = true; any = false; } if (!D[i].blocked) continue; if (any && dl[i].packetno != prevno + 1 && dl[i].orig > 0) { broke = true; brk = true; }
+          if (brk) suspect = !dl[i].intact; else if (!dl[i].intact) suspect = true;
+          prevno = dl[i].packetno; any = true; if (dl[i].orig >= 0 && dl[i].orig == resync_at) break; } }
       for (size_t i = 0; i < dl.size(); i++) {
         const Deliv &d = dl[i]; if (d.orig < 0 || !d.intact) continue;
         if (d.orig < first_clean) continue;
@@ -130,7 +135,7 @@ struct PkRun {
         std::map<std::string, std::string> facts = {{"kind", kinds}, {"gran", std::to_string(gk)}, {"hr", std::to_string(hr)}};
         // ... but only a count that ran on *without* a sequence break can be too large: a break (lost, repeated, reordered or rejected
         // packet, restart) makes the decoder forget its count, and a fresh count can never exceed the stream's own position
-        bool lenient = (d.orig == resync_at) && (!broke || d.eos);
+        bool lenient = (d.orig == resync_at) && (!broke || suspect || d.eos);
         if (!lenient) {
           check(a.n == b.n, "locality", "chunk-length-differs", fmt("experiment %s: packet %d (first clean %d, last disturbed %d, resync at %d) returned %d samples, undisturbed decode %d", kinds.c_str(), d.orig, first_clean, last_dist, resync_at, a.n, b.n), facts);
           for (size_t c = 0; c < a.pcm.size() && c < b.pcm.size(); c++) if (a.n && memcmp(a.pcm[c].data(), b.pcm[c].data(), (size_t)a.n * sizeof(float))) {
@@ -348,6 +353,11 @@ struct PkGen {
   Recipe small_recipe() {
     Recipe r; static const long rates[] = {8000, 11025, 16000, 22050, 32000, 44100, 48000, 44100};
     for (int tries = 0; tries < 50; tries++) {
+      if (g.chance(0.3)) {   // a hand-built stream (craft.cpp): set-up headers of kinds the encoder never writes, noise packets
+        r = Recipe(); r.craft = 1; r.rate = rates[g.below(8)]; double cc = g.unit(); r.ch = cc < 0.4 ? 1 : cc < 0.75 ? 2 : cc < 0.9 ? 3 : (int)g.range(4, 8);
+        r.seed = g.below(thorough ? 100000 : 4000); r.n = (int64_t)g.range(4, thorough ? 120 : 50); r.ncomm = (int)g.below(3);
+        auto l = get_link(r); if (l->ok && !l->ref_err) return r; continue;
+      }
       r = Recipe(); r.rate = rates[g.below(8)]; double cc = g.unit(); r.ch = cc < 0.35 ? 1 : cc < 0.8 ? 2 : cc < 0.9 ? 3 : cc < 0.95 ? 6 : 4;
       if (!thorough ? g.chance(0.03) : g.chance(0.06)) r.ch = 9 + (int)g.below(g.chance(0.2) ? 247 : 40);   // thin share of many-channel streams
       r.q = -0.1 + g.unit() * 1.1; r.mode = g.chance(0.15) ? 1 + (int)g.below(3) : 0; if (r.mode) r.nominal = (long)(r.rate * 1.4 * std::min(r.ch, 2) * (0.6 + g.unit()));
